@@ -41,7 +41,7 @@ func engRequest(variants []reqParams) vsched.Instance {
 	const timeout = 100 * time.Millisecond
 	var lateTargets []*actor.PID
 	body := func() {
-		p = variants[vsched.Choose(len(variants))]
+		p = variants[chooseVariant(len(variants))]
 		k = NewKit()
 		echo := func(k *Kit, c *actor.Context, inc int) {
 			if m, ok := c.Message().(reqMsg); ok {
@@ -421,7 +421,7 @@ func engTree(variants []treeParams) vsched.Instance {
 	crashed := map[string]bool{}
 	stoppedSelf := ""
 	body := func() {
-		p = variants[vsched.Choose(len(variants))]
+		p = variants[chooseVariant(len(variants))]
 		k = NewKit()
 		var mk func(name string, depth int) Behaviour
 		mk = func(name string, depth int) Behaviour {
